@@ -111,6 +111,9 @@ def run_case(ck, rng, stats, samples):
                 parts.append(b'\\%d' % rng.choice([0, 1, 2, 3, 0, 1, 2, 3, 9, 10, 11, 12, 13]))
             elif r == 5:
                 parts.append(b'\\%d.%d' % (rng.randrange(0, nc + 1), rng.choice([0, 1, 2, 0, 1, 2, 10, 12])))
+            elif r == 6 and rng.randrange(2):
+                # the group number after the dot is read the way strtoul reads it: blanks and a sign may precede the digits
+                parts.append(rng.choice([b'\\%d. %d', b'\\%d.+%d', b'\\%d.\t%d', b'\\%d.-%d', b'\\%d.  +%d']) % (rng.randrange(0, nc + 1), rng.choice([0, 1, 2, 7])))
             elif r == 6:
                 parts.append(b'\\%d\\.' % rng.randrange(0, 3))
             elif r == 7 and rng.randrange(3) == 0:
